@@ -77,7 +77,7 @@ TESTS = {
                                 why='replay search: source of concrete failing inputs when the Kani harnesses of the cycle are undecided (they are written against its data layout) or fail; covers the sharing of the cursor between clones'),
     'channels_bounded': dict(file='channels_bounded', fn='channels_per_key_scripts',
                              functions=['tarpc/src/server/limits/channels_per_key.rs::MaxChannelsPerKey, TrackedChannel, Tracker (through the public API: Incoming::max_channels_per_key over an mpsc listener of BaseChannels)'],
-                             bound='every script of <= 9 events over {arrive key 0, arrive key 1, drop the k-th oldest live yielded channel (k<3), poll once} x n in {1,2} (118516 scripts); oracle = the property (admitted iff fewer than n yielded channels with the key are alive when the filter reaches the arrival)',
+                             bound='every script of <= 9 events over {arrive key 0, arrive key 1, drop the k-th oldest live yielded channel (k<3), poll once} x n in {1,2} (118516 scripts), plus longer histories in which close notifications pile up: a close-and-reopen churn family (48 scripts) and a fixed pseudo-random sample of 20 000 (thorough: 200 000) scripts of 10..=18 events; oracle = the property (admitted iff fewer than n yielded channels with the key are alive when the filter reaches the arrival)',
                              why='replay search: source of concrete failing inputs when the deductive check of unit channels is undecided (code rewritten into combinator style Verus rejects) or fails'),
     'complete_all_bounded': dict(inrepo=True, file='client_table', fn='verif_native_complete_all_requests_bounded',
                                  functions=['tarpc/src/client/in_flight_requests.rs::complete_all_requests (+ its consuming loop)'],
